@@ -26,7 +26,7 @@ BUILT = {
          "Every start_send/poll_ready/poll_flush/poll_close call is logged by the scripted transport and checked against the Sink contract for generated capacities, budgets and faults.",
          "The scripted transport is maximally permissive outside the stated rules.", "DESIGN.md §5 C14"),
  "C04": ("server", "stateful property-based testing of the real server channel against a reference model of read-and-unanswered ids; handler poll counters",
-         "Cancels at every position relative to handler start/completion/response write, unknown and finished ids, with/without request limit; checks frozen handler polls, no response, in-flight count agreement, no collateral aborts. Cascade part (chains) pending.",
+         "Cancels at every position relative to handler start/completion/response write, unknown and finished ids, with/without request limit; checks frozen handler polls, no response, in-flight count agreement, no collateral aborts. Cascade part: chains of depth 1-3 with the head call abandoned at a generated point.",
          "Finding F6 region (limit, at limit, sink not ready) is steered around and counted.", "DESIGN.md §5 C04"),
  "C06": ("server", "property-based testing under virtual time against per-request expiry bounds and a no-spurious-abort invariant",
          "Concurrent requests with different deadlines, clock steps around each deadline; exact 'never early', 2 ms 'must be gone', completed-in-time implies answered.",
@@ -46,6 +46,12 @@ BUILT = {
  "C20": ("stubs", "property-based testing of the stub combinators with invariant oracles, plus a real-threads run for the round-robin cursor",
          "Round-robin balance after every call (sequential, concurrently created futures polled in generated order, and 8-16 real threads), consistent-hash determinism/validity under generated hashers, retry protocol against a scripted backend.",
          "Real-thread run checks the visible effect only (no memory-model exploration).", "DESIGN.md §5 C20"),
+ "C07": ("chain", "property-based testing of 1-3 hop chains under virtual time with exact metamorphic bounds on the propagated deadline",
+         "Real client/server hops over the shipped in-memory channel and the serde transport (JSON, bincode) on byte pipes; transit delays are virtual-clock advances between serialisation and deserialisation; bounds are exact.",
+         "Transit delay is modelled as virtual time between start_send and the receiving poll_next; OS sockets are not involved.", "DESIGN.md §5 C07"),
+ "C18": ("chain", "property-based testing of 1-3 hop chains with concurrent calls and cancels; equality/inequality relations over recorded trace contexts",
+         "Trace id / sampling equalities hop to hop, fresh span ids, cancel carries the request's context, no subscriber and OpenTelemetry layer modes.",
+         "Span ids come from tarpc's own RNG; only equality relations are used.", "DESIGN.md §5 C18"),
  "C01": ("client", "stateful property-based testing (proptest op sequences over the real client dispatch under an owned scheduler) against a wire reference model",
          "Generated call/reply/abandon/expire histories and schedules; a model of the wire decides which payload each call may return. Exploration, not proof: bounded scenario length, poll-granularity schedules.",
          "Trusts the scripted transport and executor of the harness; virtual time via clock_gettime interposition.", "DESIGN.md §5 C01"),
@@ -81,6 +87,7 @@ m = {
    {"name": "listener", "path": "harness/src/props/c13.rs", "serves_properties": ["C13"], "kind_free_text": "real Incoming::max_channels_per_key over a scripted listener"},
    {"name": "hooks", "path": "harness/src/props/c19.rs", "serves_properties": ["C19"], "kind_free_text": "tarpc request-hook combinators vs reference interpreter"},
    {"name": "stubs", "path": "harness/src/props/c20.rs", "serves_properties": ["C20"], "kind_free_text": "RoundRobin / ConsistentHash / Retry stubs with counting and scripted backends"},
+   {"name": "chain", "path": "harness/src/engines/chain.rs", "serves_properties": ["C07","C18","C04"], "kind_free_text": "1-3 real client->server hops in one owned executor over logged shipped transports (in-memory channel, serde JSON/bincode on byte pipes)"},
    {"name": "server", "path": "harness/src/engines/server.rs", "serves_properties": [p for p in BUILT if BUILT[p][0]=="server"] + ["C09","C10","C11","C14"], "kind_free_text": "real BaseChannel / MaxRequests / Requests / execute() over a scripted transport with scripted handlers; environment plays the client"},
  ],
  "checks": checks,
